@@ -145,6 +145,8 @@ MUTANTS = [
     M('sema:decl:const-dropped', 'sema', ['C09'], 'classical_declaration_statement_to_asg_stmt', 'scalar_type_to_type(&scalar_type, type_decl.const_token().is_some(), context)', 'scalar_type_to_type(&scalar_type, false, context)'),
     M('sema:io-decl:const', 'sema', ['C09'], 'io_declaration_statement_to_asg_stmt', 'let typ = scalar_type_to_type(&scalar_type, false, context);', 'let typ = scalar_type_to_type(&scalar_type, true, context);'),
     M('sema:accessor:else-branch-is-none', 'sema', ['C06'], 'If::else_branch', 'self.else_branch.as_ref()', 'None'),
+    M('sema:accessor:gatecall-params-none', 'sema', ['C06'], 'GateCall::params', 'self.params.as_deref()', 'None'),
+    M('sema:accessor:num-params-default-one', 'sema', ['C06'], 'GateDefinition::num_params', 'map_or(0, Vec::len)', 'map_or(1, Vec::len)'),
     M('sema:accessor:stmts-truncated', 'sema', ['C06'], 'Program::stmts', '&self.stmts', '&self.stmts[0..0]'),
     M('sema:index:set-becomes-list', 'sema', ['C06'], 'index_operator_to_asg_type', 'asg::IndexOperator::SetExpression(set_expression_to_asg_type(set_expression, context))', 'asg::IndexOperator::ExpressionList(asg::ExpressionList::new(set_expression_to_asg_type(set_expression, context).expressions))'),
     M('sema:range:step-dropped', 'sema', ['C06'], 'range_expression_to_asg_type', 'asg::RangeExpression::new(start, step, stop)', 'asg::RangeExpression::new(start, None, stop)'),
